@@ -126,7 +126,8 @@ def pyvalue(v):
         import fractions
         return {'0': decimal.Decimal('0'), '0.00': decimal.Decimal('0.00'), '0j': 0j}.get(s, fractions.Fraction(0))
     if k == 'strobj':
-        return (_Labelled, _IntLabel, _FloatLabel)[len(s) % 3](s)
+        # (exception objects are inserted as their message: the one argument they were raised with)
+        return (_Labelled, _IntLabel, _FloatLabel, KeyError, _Labelled, ValueError, _IntLabel)[(len(s) + sum(map(ord, s))) % 7](s)
     if k == 'elist':
         return []
     raise ValueError(k)
